@@ -97,7 +97,7 @@ def unit(pid):
                    ('pde:energy', sp.diff(E_, t) + sp.diff(u * (E_ + p), x), 'E_t + (u (E + p))_x == 0, E = rho (e + u^2/2)')]
         elif pid == 'C03':
             obs = [('eos:p=(gamma-1)*rho*e', p - (gam - 1) * rho * e, 'p == (gamma - 1) rho e'), ('eos:cs^2=gamma*p/rho', cs ** 2 * rho - gam * p, 'sound_speed^2 == gamma p / rho'),
-                   ('eos:isentrope', p / rho ** 3 - sp.Rational(27, 256) * D ** 2 / rho_0 ** 2, 'p / rho^3 == 27 D^2 / (256 rho_0^2): the CJ isentrope of the gamma = 3 products', 'p / rho^3 is the CJ isentrope constant')]
+                   ('eos:isentrope', p / rho ** 3 - sp.Rational(27, 256) * D ** 2 / rho_0 ** 2, 'p / rho^3 == 27 D^2 / (256 rho_0^2): the CJ isentrope of the gamma = 3 products')]
         for nm, ex, text in obs:
             o = core.prove_zero('%s/%s' % (base, nm), ex, h, goal_text=text)
             if o['status'] == 'refuted': o['replay'] = NATIVE
